@@ -7,6 +7,7 @@ package main
 
 import (
 	"context"
+	"runtime"
 	"sync"
 	"encoding/json"
 	"fmt"
@@ -47,6 +48,24 @@ type Scenario struct {
 	Gates   []string    `json:"gates"`
 	Fingers bool        `json:"fingers"`
 	Steps   []Step      `json:"steps"`
+}
+
+// inCriticalSection reports whether the calling goroutine is inside a section of the membership code that holds
+// surrogateMu / predecessorMu (RequestToJoin after its lock gate, the key transfer of a leave)
+func inCriticalSection() bool {
+	pcs := make([]uintptr, 48)
+	n := runtime.Callers(2, pcs)
+	frames := runtime.CallersFrames(pcs[:n])
+	for {
+		f, more := frames.Next()
+		if strings.HasSuffix(f.Function, ".RequestToJoin") || strings.Contains(f.Function, "transferKeys") ||
+			strings.HasSuffix(f.Function, ".Import") || strings.Contains(f.Function, "kvMiddleware") {
+			return true
+		}
+		if !more {
+			return false
+		}
+	}
 }
 
 // nodeReg maps node ids to nodes; read by parked task goroutines, written by the driver
@@ -198,6 +217,9 @@ func (x *runner) run() {
 	x.sched.Gates = func(p string) bool {
 		for _, g := range gates {
 			if strings.HasPrefix(p, g) {
+				if strings.HasPrefix(p, "ns:") && inCriticalSection() {
+					return false // never park while a membership lock is held: every other operation on that node would block
+				}
 				return true
 			}
 		}
